@@ -119,6 +119,10 @@ func Build(c Cfg, dst io.Writer) (w *wsutil.Writer, ok bool) {
 		if d, ok := dst.(*env.Dst); ok {
 			d.Aux = big[c.N:]
 		}
+	case "NewWriterBuffer/odd-address":
+		// a caller buffer that starts at an odd address inside its array (arena[1:])
+		big := make([]byte, c.N+9)
+		w = wsutil.NewWriterBuffer(dst, st, c.OpCode, big[1:1+c.N:1+c.N])
 	case "GetWriter":
 		w = wsutil.GetWriter(dst, st, c.OpCode, c.N)
 	default:
